@@ -60,6 +60,7 @@ def run(ctx):
 
     inputs = dwcheck.build_inputs(ctx, 50 if quick else 400, imports=True, links=True)
     dwcheck.compare_views(ctx, inputs, ("cooked",), ["off", "tag", "kids", "attrs"], bad, stats)
+    dwcheck.compare_archives(ctx, inputs, ("cooked",), ["off", "tag", "kids", "attrs"], bad, stats)
     voc = set(zw.run_cases(["@m=voc"])[0].d["words"])
     P = pairs(voc)
     files = [(n, p) for n, _, p in inputs] + [(os.path.basename(p), p) for p in dwforest.sample_files()]
@@ -72,7 +73,7 @@ def run(ctx):
             continue
         lines = []
         for _, a, b in P:
-            lines += [zw.enc(a, dw=p, t=120, max=1000000), zw.enc(b, dw=p, t=120, max=1000000)]
+            lines += [zw.enc(a, dw=p, t=120, max=200000), zw.enc(b, dw=p, t=120, max=200000)]
         rs = zw.run_cases(lines)
         for k, (ln, a, b) in enumerate(P):
             ra, rb = rs[2 * k], rs[2 * k + 1]
